@@ -59,7 +59,7 @@ Blocks == 0..Len(states)     \* 0 = "no block given"
 
 Ops == {o \in
        {[op |-> "Put", k |-> k, v |-> v] : k \in {x \in Keys : Len(states) < MaxBlocks}, v \in Vals}
-  \cup {[op |-> "Delete", k |-> k] : k \in {x \in Keys : Len(states) < MaxBlocks}}
+  \cup {[op |-> "Delete", k |-> k] : k \in {x \in Keys : Len(states) < MaxBlocks /\ x # <<>>}}
   \cup {[op |-> "PageAll", b |-> b, p |-> p, q |-> q] : b \in Blocks, p \in Prefixes, q \in Qtys}
   \cup {[op |-> "Page", b |-> b, p |-> p, after |-> a, q |-> q] : b \in Blocks, p \in Prefixes, a \in AfterKeys, q \in Qtys}
   \cup {[op |-> "Pairs", b |-> b, p |-> p] : b \in Blocks, p \in Prefixes}
@@ -101,7 +101,8 @@ PickOp ==
   LET kinds == {i \in 1..Len(Weighted) : Weighted[i] \in OpKinds /\ (Len(states) < MaxBlocks \/ Weighted[i] \notin {"Put", "Delete"})}
       kd == Weighted[Pick(kinds)]
   IN CASE kd = "Put" -> [op |-> "Put", k |-> Pick(Keys), v |-> Pick(Vals)]
-       [] kd = "Delete" -> [op |-> "Delete", k |-> Pick(Keys)]
+       \* the empty key is written but never deleted here: the trie's Delete("") is C02's recorded finding
+       [] kd = "Delete" -> [op |-> "Delete", k |-> Pick(Keys \ {<<>>})]
        [] kd = "PageAll" -> [op |-> "PageAll", b |-> PickBlock, p |-> Pick(Prefixes), q |-> Pick(Qtys)]
        [] kd = "Page" -> [op |-> "Page", b |-> PickBlock, p |-> Pick(Prefixes), after |-> Pick(AfterKeys), q |-> Pick(Qtys)]
        [] OTHER -> [op |-> "Pairs", b |-> PickBlock, p |-> Pick(Prefixes)]
